@@ -202,7 +202,7 @@ func init() {
 	core.Register(&core.Prop{
 		ID:    "C06",
 		Level: "exploration",
-		Rule: "twin execution: every constituent file system exists twice (twin A inside the mount FS, twin B stand-alone, cloned from A); each operation of a seeded history issued through the mount FS at path p is mirrored on twin B of the file system an independent longest-whole-element-prefix model selects, at the remainder path; afterwards every A twin must equal its B twin (so nothing else changed) and the results must agree. Rename routes both names through the model; cross-mount renames of regular files are checked against 'only at the destination with the same bytes and mode, or failed with both sides unchanged'. " +
+		Rule: "twin execution: every constituent file system exists twice (twin A inside the mount FS, twin B stand-alone, cloned from A); each operation of a seeded history issued through the mount FS at path p is mirrored on twin B of the file system an independent longest-whole-element-prefix model selects, at the remainder path; afterwards every A twin must equal its B twin (so nothing else changed) and the results must agree. A quarter of the calls are issued through a Sub view of a directory on the way to the path (at, above or below mount points) instead of the mount FS itself. Rename routes both names through the model; cross-mount renames of regular files are checked against 'only at the destination with the same bytes and mode, or failed with both sides unchanged'. " +
 			"Mount-point sets: all subsets of {a, ab, a/b, a/b/c, b, c/a} up to size 2 plus 20 larger ones (quick) / up to size 4 (thorough), each repeated (the mount table's iteration order is randomised by the runtime; distinct MountPoints() orders are counted). AddMount preconditions are checked against a model, and 2..8 goroutines mounting one point are released together inside the window between the existence check and the table update (a wrapper pauses the root FS's Open), under the race detector: exactly one must succeed. (crossfault) renames of a 16 KiB file from the file system mounted at a to the one mounted at b (equal and different relative names, nested or not, destination missing or an existing file, bystander files at the other side's relative names) with the k-th Write / short Write of the destination handle or the k-th Read of the source handle failing: the rename must fail and the snapshots of the root, source and destination file systems must equal those taken before. Non-trivial: histories with >=1 operation routed to a non-root mount and >=1 cross-mount rename, or a concurrent AddMount group; distinct by (set, repetition)",
 		Assumptions: []string{"mount.AddMount refusing '.' is configuration", "constituent file systems are mem.FS", "a cross-mount rename that fails although the model could complete it is counted, not flagged (the property allows failing with both sides unchanged)"},
 		NumCases:    func(env *core.Env) int { return len(c06cases(env)) },
@@ -297,7 +297,47 @@ func c06routeCase(env *core.Env, cs c06case, idx int, res *core.CaseResult) {
 			}
 			return fmt.Sprintf("C06|%s|%s|%s", st.K, rel, what)
 		}
-		ra := fsx.Exec(w.mfs, st, &hsA, nil)
+		var ra fsx.Result
+		viaView := ""
+		if gen.R.Intn(4) == 0 {
+			// the same call through a Sub view of a directory on the way to the path (also exactly at, above and below
+			// mount points): routing must not depend on where the caller's view of the mount FS starts
+			els := strings.Split(st.P, "/")
+			base := strings.Join(els[:gen.R.Intn(len(els)+1)], "/")
+			rel := func(p string) (string, bool) {
+				switch {
+				case base == "" || base == ".":
+					return p, true
+				case p == base:
+					return ".", true
+				case strings.HasPrefix(p, base+"/"):
+					return p[len(base)+1:], true
+				}
+				return "", false
+			}
+			if base != "" && st.P != "." {
+				if info, err := hackpadfs.Stat(w.mfs, base); err == nil && info.IsDir() {
+					if view, err := hackpadfs.Sub(w.mfs, base); err == nil {
+						stv := st
+						var ok1, ok2 = false, true
+						stv.P, ok1 = rel(st.P)
+						if st.P2 != "" {
+							stv.P2, ok2 = rel(st.P2)
+						}
+						if ok1 && ok2 {
+							viaView = base
+							ra = fsx.Exec(view, stv, &hsA, nil)
+							res.Count("ops_through_sub_views", 1)
+						}
+					}
+				}
+			}
+		}
+		if viaView == "" {
+			ra = fsx.Exec(w.mfs, st, &hsA, nil)
+		} else {
+			wit["through_sub_view_of"] = viaView
+		}
 		if ra.Panic != "" {
 			res.Violate(sig("panic"), fmt.Sprintf("%s through the mount FS panicked: %s", st, ra.Panic), wit)
 			return
